@@ -11,7 +11,7 @@ import sys, os, re, json, subprocess, shutil, glob, fcntl
 ROOT = os.path.dirname(os.path.dirname(os.path.abspath(__file__)))
 REPO = os.environ.get("VERIF_REPO", "/repo")
 RES = os.environ.get("VERIF_REFACTOR_RESULTS", os.path.join(ROOT, "selftest", "refactor_results.json"))
-ALSO = {"C01": ["C02"], "C03": ["C02", "C13"], "C13": ["C03"], "C17": ["C20"], "C20": ["C17"]}
+ALSO = {"C01": ["C02"], "C17": ["C20"], "C20": ["C17"]}
 wave = sys.argv[1]
 pids = sys.argv[2:] or sorted({os.path.basename(d)[:3] for d in glob.glob(os.path.join(wave, "C??_out"))})
 
